@@ -12,6 +12,7 @@
 From Coq Require Import ZArith List Bool.
 From Flocq Require Import IEEE754.BinarySingleNaN.
 From CF Require Import Base.Mem Model.Tables Model.Prim Model.SimdApi Model.Kernels Model.Regs Model.Spec.
+From CF Require Import Model.TableSem Model.Exports Model.Safe Proofs.SafeSem Gen.GenExports Gen.GenSafe Gen.GenMacros Gen.GenDispatch.
 From CF Require Import Proofs.KernelBounds Proofs.ReduceCorrect Proofs.Extreme Proofs.FloatOrder Proofs.FloatBackends
      Proofs.BackendTable Proofs.SpecLink.
 Import ListNotations.
@@ -31,6 +32,31 @@ Proof.
   intros r t R k a b res v dims HR Hk Ha Fa Hv Hb Hr.
   apply (int_export_meets_spec r t R k a b res v dims HR); auto.
   unfold minmax_kernels in Hk. unfold int_spec_kernels. cbn [In] in *. tauto.
+Qed.
+
+
+(* Through the SAFE API, under every dispatch outcome: for every safe routine of the regenerated tables whose kernel is
+   one of these, both forms, every build configuration [bc], ARBITRARY outcomes [p] of the is_*_available predicates,
+   release and debug: if the call passes the wrapper's generated assert list then, whichever (non-NEON) slot [x] the
+   dispatch chain selects, the result meets the specification; [safe_fn_of], [select_chain], [run_safe] are the
+   semantics of the generated macro tables (Model/TableSem.v, Model/Safe.v). *)
+Theorem C05_safe_api_int :
+  forall s f bc p debug m sf k x,
+    In s safe_entries -> find_safe_macro safe_macros (s_macro s) = Some m -> safe_fn_of m f = Some sf ->
+    safe_kernel s = Some k -> select_chain dispatch_chain bc p (supplied_of sf) = Some x -> x <> SNeon ->
+    forall DIMS v a b res,
+      is_float (s_ty s) = false -> In k minmax_kernels ->
+      let l := {| len_a := length a; len_b := length b; len_r := length res; len_dims := DIMS |} in
+      asserts_pass l (sf_asserts sf) = true ->
+      (debug = true -> asserts_pass l (sf_debug_asserts sf) = true) ->
+      Forall (in_range (width (s_ty s))) a -> in_range (width (s_ty s)) v ->
+      (kernel_uses_b k = true -> Forall (in_range (width (s_ty s))) b) ->
+      xmeets (run_safe dispatch_chain run_export_int exports safe_macros s f bc p debug DIMS v a b res)
+             (spec_int (is_signed (s_ty s)) (width (s_ty s)) k v a b).
+Proof.
+  intros s f bc p debug m sf k x Hs Hm Hsf Hk Hsel Hx DIMS v a b res Hty Hkin.
+  apply (safe_int_meets_spec s f bc p debug m sf k x Hs Hm Hsf Hk Hsel Hx DIMS v a b res Hty).
+  unfold minmax_kernels in Hkin. unfold int_spec_kernels. cbn [In] in *. tauto.
 Qed.
 
 Theorem C05_int_spec_reads :
